@@ -1,5 +1,7 @@
 import Driver.Wire
 import Marwood.Spec.Scope
+import Marwood.Vm.EnvRun
+import Marwood.Vm.Compile
 /-! Driver commands of the Scope area (C02).
 
 `scope-spec <program>`  the specification interpreter (`Marwood.Spec.Scope.run`)
@@ -121,10 +123,203 @@ def specAnswer (p : Program) : String :=
   let log := s.log.reverse.map fun ev => s!"{ev.site}={renderVal ev.val}"
   "ok " ++ ";".intercalate res ++ "|" ++ ",".intercalate log
 
+/-! the model evaluator -/
+open Marwood.Vm.EnvRun in
+partial def renderMVal : Marwood.Vm.EnvRun.Val → String
+  | .int n => toString n
+  | .clo .. => "p"
+  | .nil => "()"
+  | .void => "v"
+  | .undef => "u"
+  | .pair a d =>
+    let rec tail : Marwood.Vm.EnvRun.Val → String
+      | .nil => ")"
+      | .pair a d => "_" ++ renderMVal a ++ tail d
+      | v => "_._" ++ renderMVal v ++ ")"
+    "(" ++ renderMVal a ++ tail d
+
+open Marwood.Vm.EnvRun in
+def mErrName : Marwood.Vm.EnvRun.Err → String
+  | .unbound => "err:unbound" | .arity => "err:arity" | .notProcedure => "err:not-procedure"
+  | .type => "err:type" | .fuel => "err:fuel" | .internal => "err:internal" | .panic => "panic:env"
+
+open Marwood.Vm.EnvRun in
+def modelAnswer (p : Program) : String :=
+  let (rs, s) := Marwood.Vm.EnvRun.run 100000 p {}
+  let res := rs.map fun
+    | .ok v => renderMVal v
+    | .error e => mErrName e
+  let log := s.log.reverse.map fun (site, v) => s!"{site}={renderMVal v}"
+  "ok " ++ ";".intercalate res ++ "|" ++ ",".intercalate log
+
+/-! environment maps of every lambda, as `scope.rs` renders the real ones -/
+open Marwood.Vm.Env
+
+def insertSorted (x : String) : List String → List String
+  | [] => [x]
+  | y :: ys => if x < y then x :: y :: ys else y :: insertSorted x ys
+
+def sortStrings (l : List String) : List String := l.foldr insertSorted []
+
+/-- follow the entry at `slot` of the innermost map along its `IofEnvironment` links -/
+def followStr : List LamCtx → Nat → Name → String
+  | [], _, _ => "!top"
+  | c :: outer, slot, want =>
+    match c.envmap[slot]? with
+    | none => "!range"
+    | some (s, src) =>
+      if s != want then "!name" else
+      match src with
+      | .argument n => s!"a{n}"
+      | .internal => "i"
+      | .iofArg n => s!"f{n}"
+      | .iofEnv k => "e>" ++ (match outer with
+        | [] => "!top"
+        | _ => followStr outer k want)
+
+def locTok (chain : List LamCtx) (x : Name) : String :=
+  match chain with
+  | [] => s!"G{x}"
+  | c :: _ =>
+    match bindingLocation c x with
+    | .global => s!"G{x}"
+    | .env s => s!"S{x}:" ++ followStr chain s x
+    | .arg n => s!"R{(n : Int) + 1 - c.args.length}"
+
+mutual
+/-- the variable operands and nested lambdas of the code `compile_expression` emits, in order -/
+partial def codeToks (chain : List LamCtx) : Expr → List String
+  | .fresh => [locTok chain Name.tick]
+  | .ref _ x => [locTok chain x, locTok chain Name.rd]
+  | .set _ x e => codeToks chain e ++ [locTok chain Name.wr, locTok chain x]
+  | .lam ps r ds body => [lamTok chain false ps r ds body]
+  | .call f args => codeToksList chain args ++ codeToks chain f
+  | .seq es => [lamTok chain false [] none .nil es]
+  | .loop _ f => codeToks chain f ++ [locTok chain Name.times]
+  | .each l args => codeToks chain l ++ codeToksList chain args ++ [locTok chain Name.list, locTok chain Name.each]
+
+partial def codeToksList (chain : List LamCtx) : Exprs → List String
+  | .nil => []
+  | .cons e es => codeToks chain e ++ codeToksList chain es
+
+partial def defToks (chain : List LamCtx) : Defs → List String
+  | .nil => []
+  | .cons x sugar e ds =>
+    (match sugar, e with
+     | true, .lam ps r ds' body => [lamTok chain true ps r ds' body]
+     | _, e => codeToks chain e) ++ [locTok chain x] ++ defToks chain ds
+
+partial def lamTok (chain : List LamCtx) (sugar : Bool) (ps : List Name) (r : Option Name) (ds : Defs)
+    (body : Exprs) : String :=
+  let iof := match chain with | c :: _ => c | [] => LamCtx.top
+  let c := compileLam iof sugar ps r ds body
+  let chain' := c :: chain
+  let env := sortStrings (c.envmap.zipIdx.map fun ((x, _), i) => s!"{x}:" ++ followStr chain' i x)
+  let code := defToks chain' ds ++ codeToksList chain' body
+  s!"L[{",".intercalate (c.args.map toString)};{if r.isSome then 1 else 0};{"|".intercalate env};{",".intercalate code}]"
+end
+
+/-! cross-check of the two compiler models: the term-level scope model (`Marwood.Vm.Env`) against
+the datum-level compiler model (`Marwood.Vm.Compile`, the one tied to `compile.rs` on arbitrary
+forms by the C04 correspondence), on the rendering of the program -/
+
+def nameStr (n : Name) : String :=
+  match n with
+  | 0 => "a" | 1 => "b" | 2 => "c" | 3 => "k" | 4 => "i" | 5 => "d" | 6 => "e"
+  | 1000 => "tick" | 1001 => "rd" | 1002 => "wr" | 1003 => "times" | 1004 => "each" | 1005 => "list"
+  | n => if 10 ≤ n ∧ n < 100 then s!"g{n - 10}" else s!"v{n}"
+
+def symD (n : Name) : Datum := .sym (nameStr n).toList
+def kw (s : String) : Datum := .sym s.toList
+def numD (n : Nat) : Datum := .num (.fix n)
+
+def formalsD (head : Option Name) (ps : List Name) (r : Option Name) : Datum :=
+  Datum.ofListTail ((head.toList ++ ps).map symD) (match r with | some x => symD x | none => .nil)
+
+mutual
+partial def renderD : Expr → Datum
+  | .fresh => Datum.ofList [symD Name.tick]
+  | .ref s x => Datum.ofList [symD Name.rd, numD s, symD x]
+  | .set s x e => Datum.ofList [kw "set!", symD x, Datum.ofList [symD Name.wr, numD s, renderD e]]
+  | .lam ps r ds body => Datum.ofList ([kw "lambda", formalsD none ps r] ++ bodyD ds body)
+  | .call f args => Datum.ofList (renderD f :: listD args)
+  | .seq es => Datum.ofList [Datum.ofList ([kw "lambda", Datum.nil] ++ listD es)]
+  | .loop n f => Datum.ofList [symD Name.times, numD n, renderD f]
+  | .each l args => Datum.ofList [symD Name.each, renderD l, Datum.ofList (symD Name.list :: listD args)]
+partial def listD : Exprs → List Datum
+  | .nil => []
+  | .cons e es => renderD e :: listD es
+partial def bodyD (ds : Defs) (body : Exprs) : List Datum :=
+  let rec defsD : Defs → List Datum
+    | .nil => []
+    | .cons x sugar e ds =>
+      (match sugar, e with
+       | true, .lam ps r ds' body' => Datum.ofList ([kw "define", formalsD (some x) ps r] ++ bodyD ds' body')
+       | _, e => Datum.ofList [kw "define", symD x, renderD e]) :: defsD ds
+  defsD ds ++ listD body
+end
+
+def srcKind : Source → String
+  | .argument n => s!"a{n}" | .internal => "i" | .iofEnv _ => "e" | .iofArg n => s!"f{n}"
+
+def srcKindC : Marwood.Vm.Source → String
+  | .argument n => s!"a{n}" | .internal => "i" | .iofEnvironment => "e" | .iofArgument n => s!"f{n}"
+
+def lamSummary (args : List String) (env : List String) : String :=
+  ",".intercalate args ++ "/" ++ "|".intercalate (sortStrings env)
+
+mutual
+/-- the scope model's lambdas in the order the compiler finishes them (innermost first) -/
+partial def lamsPost (iof : LamCtx) : Expr → List String
+  | .fresh | .ref _ _ => []
+  | .set _ _ e => lamsPost iof e
+  | .lam ps r ds body => lamPost iof false ps r ds body
+  | .call f args => lamsPostList iof args ++ lamsPost iof f
+  | .seq es => lamPost iof false [] none .nil es
+  | .loop _ f => lamsPost iof f
+  | .each l args => lamsPost iof l ++ lamsPostList iof args
+partial def lamsPostList (iof : LamCtx) : Exprs → List String
+  | .nil => []
+  | .cons e es => lamsPost iof e ++ lamsPostList iof es
+partial def lamsPostDefs (iof : LamCtx) : Defs → List String
+  | .nil => []
+  | .cons _ sugar e ds =>
+    (match sugar, e with
+     | true, .lam ps r ds' body => lamPost iof true ps r ds' body
+     | _, e => lamsPost iof e) ++ lamsPostDefs iof ds
+partial def lamPost (iof : LamCtx) (sugar : Bool) (ps : List Name) (r : Option Name) (ds : Defs)
+    (body : Exprs) : List String :=
+  let c := compileLam iof sugar ps r ds body
+  lamsPostDefs c ds ++ lamsPostList c body ++
+    [lamSummary (c.args.map nameStr) (c.envmap.map fun (x, s) => nameStr x ++ ":" ++ srcKind s)]
+end
+
+/-- `none` when both models produce the same lambdas for the form -/
+def crossCheck (t : Top) : Option String :=
+  let (d, e) := match t with
+    | .define x e => (Datum.ofList [kw "define", symD x, renderD e], e)
+    | .expr e => (renderD e, e)
+  let mine := lamsPost LamCtx.top e
+  match Marwood.Vm.compileTop d 100000 with
+  | .error _ => some "!xmodel-error"
+  | .ok (st, _) =>
+    let theirs := st.lambdas.map fun l =>
+      lamSummary (l.args.map String.ofList) (l.envmap.map fun (x, s) => String.ofList x ++ ":" ++ srcKindC s)
+    if mine == theirs then none else some ("!xmodel[" ++ ";".intercalate mine ++ "≠" ++ ";".intercalate theirs ++ "]")
+
+def envmapAnswer (p : Program) : String :=
+  let forms := p.map fun t =>
+    (match t with
+     | .define x e => "L[;0;;" ++ ",".intercalate (codeToks [LamCtx.top] e ++ [s!"G{x}"]) ++ "]"
+     | .expr e => "L[;0;;" ++ ",".intercalate (codeToks [LamCtx.top] e) ++ "]")
+    ++ (match crossCheck t with | none => "" | some m => m)
+  "ok " ++ ";".intercalate forms
+
 def handle (cmd : String) (args : List String) : Option String :=
   match cmd with
   | "scope-spec" => (pProgram args).map specAnswer
-  | "scope-run" => (pProgram args).map specAnswer
+  | "scope-run" => (pProgram args).map modelAnswer
+  | "scope-envmap" => (pProgram args).map envmapAnswer
   | _ => none
 
 end Marwood.Driver.Scope
